@@ -135,6 +135,82 @@ class Cell {
     }
 };
 
+// Reg: a two-word register value whose accesses are observable only when they involve THE shared instance (the one the
+// wrapper holds): copy / move / assignment / comparison from the shared instance is a read window (rb, re) on it,
+// assignment to it a write window (cb, ce); operations among thread-local temporaries are silent.
+class Reg {
+  public:
+    long a = 0, b = 0;
+    bool shared = false;
+    Reg() = default;
+    explicit Reg(long v, bool sh = false): a(v), b(v), shared(sh) {}
+    Reg(const Reg& o) { take(o); }
+    Reg(Reg&& o) noexcept { take(o); }
+    Reg& operator=(const Reg& o)
+    {
+        assign(o);
+        return *this;
+    }
+    Reg& operator=(Reg&& o) noexcept
+    {
+        assign(o);
+        return *this;
+    }
+    bool operator==(const Reg& o) const
+    {
+        if (shared || o.shared) {
+            const Reg& s = shared ? *this : o;
+            const Reg& l = shared ? o : *this;
+            simple_point("rb");
+            long x = s.a;
+            log_ev("rb", "reg", 1, x);
+            simple_point("re");
+            long y = s.b;
+            log_ev("re", "reg", 1, x, y);
+            return x == l.a && y == l.b;
+        }
+        return a == o.a && b == o.b;
+    }
+    long value() const { return a == b ? a : -(a * 1000 + b) - 1; }
+
+  private:
+    void take(const Reg& o)  // construct from o: the new object is always a local one
+    {
+        if (o.shared && scheduled()) {
+            simple_point("rb");
+            a = o.a;
+            log_ev("rb", "reg", 1, a);
+            simple_point("re");
+            b = o.b;
+            log_ev("re", "reg", 1, a, b);
+        } else {
+            a = o.a;
+            b = o.b;
+        }
+    }
+    void assign(const Reg& o)
+    {
+        if (shared && scheduled()) {
+            simple_point("cb");
+            a = o.a;
+            log_ev("cb", "reg", 1, a);
+            simple_point("ce");
+            b = o.b;
+            log_ev("ce", "reg", 1, b);
+        } else if (o.shared && scheduled()) {
+            simple_point("rb");
+            a = o.a;
+            log_ev("rb", "reg", 1, a);
+            simple_point("re");
+            b = o.b;
+            log_ev("re", "reg", 1, a, b);
+        } else {
+            a = o.a;
+            b = o.b;
+        }
+    }
+};
+
 // suspend instrumentation (driver-side inspection after the run)
 struct Quiet {
     bool was;
